@@ -107,6 +107,10 @@ class LocalSim(mosaik_api_v3.Simulator):
 
     def finalize(self):
         self.ctx.record({"k": "STOP", "s": self.sid})
+        slow = S.sim_by_id(self.ctx.scn)[self.sid].get("slow_finalize")
+        if slow:
+            # an in-process simulator whose finalize() takes (virtual) wall-clock time: writing result files, closing a data base
+            self.ctx.loop._vtime += float(slow)
 
 
 class LocalGenSim(LocalSim):
